@@ -174,7 +174,13 @@ pub fn run(tier: Tier, seed: u64, only: Option<usize>) -> i32 {
             }
             rep.merge(o);
         }
-        None => rep.run_parallel(n, |i| run_scenario(seed, i, tier)),
+        None => {
+            rep.run_parallel(n, |i| run_scenario(seed, i, tier));
+            // synthetic histories (the C05 generator: Dublin checksums with NAT-like changes,
+            // silent and failed probes, responses stamped before their probe because the wall
+            // clock was stepped back), judged for the NAT flag only
+            rep.run_parallel(tier.pick(4_000, 60_000), |i| crate::props::c05::history_focus(seed ^ 0xC19, i, tier, Some("last_nat_status")).retain_clauses(&["state_equals_reaggregation", "update_never_panics", "getters_never_panic"], "synthetic"));
+        }
     }
     rep.finish()
 }
